@@ -47,3 +47,13 @@ Section C08.
     inverse_continuing_5dof hp cons Pose kernel5 pose sentinel prev.
   Proof. exact (dof5_dispatch hp thr sg off dof cons Pose kernel kernel5 shift fk_ok). Qed.
 End C08.
+
+(** ** "The limits a wrapper reports are those of the robot it wraps" - about the delegation code RE-TRANSLATED from
+    src/tool.rs, src/frame.rs, src/parallelogram.rs, src/kinematics_with_shape.rs on every run: any stack of tool / base /
+    frame wrappers, a parallelogram and the shape wrapper report the wrapped robot's limits unchanged *)
+From VF Require Import Base.Lin Model.WrapBase Gen.Delegation Proofs.WrapP.
+Theorem C08_stack_reports_inner_limits : forall ws r, k_constraints (stack ws r) = k_constraints r.
+Proof. exact stack_constraints. Qed.
+Theorem C08_parallelogram_reports_inner_limits : forall scaling driven coupled r,
+  k_constraints (para_kin scaling driven coupled r) = k_constraints r.
+Proof. reflexivity. Qed.
